@@ -15,3 +15,13 @@ static inline struct BuildValue bv_from_data(struct valuedata d) { struct BuildV
 static inline void ti_complete(struct TaskInterface *ti, struct valuedata d, _Bool force) { g_completes++; g_complete_kind = d.kind; g_complete_force = force; }
 /* Command::getResultForOutput(node, value): proved for ExternalCommand in U-ext-result; here a recorder with an arbitrary answer */
 static inline struct BuildValue verif_result_for_output(struct Command *c, struct Node *n, struct BuildValue v) { g_rfo_calls++; g_rfo_node = n; g_rfo_value_src = v.g_src; struct BuildValue r; r.kind = g_rfo_kind; r.g_n = 0; return r; }
+/* Target::getNodes()[i]: node i of the target, named by its position */
+char g_nodes_base[64];
+#define NODE_AT(i) ((const void *)&g_nodes_base[(i) % 64])
+static inline struct nodelist *verif_target_nodes(void *target) { static struct nodelist l; return &l; }
+static inline struct Node *nodelist_at(struct nodelist *l, uintptr_t i) { return (struct Node *)NODE_AT(i); }
+static inline void nodeset_insert(struct nodeset *s, struct Node *n) { s->n = s->n + 1; s->last = n; }
+unsigned g_prior_calls, g_provide_calls; const void *g_fwd_src; uintptr_t g_fwd_id;
+static inline void *verif_outer_bs(void *impl) { return impl; }
+static inline void verif_cmd_prior(struct Command *c, void *system, struct TaskInterface ti, struct BuildValue v) { g_prior_calls++; g_fwd_src = v.g_src; }
+static inline void verif_cmd_provide(struct Command *c, void *system, struct TaskInterface ti, uintptr_t id, struct valuedata key, struct BuildValue v) { g_provide_calls++; g_fwd_src = v.g_src; g_fwd_id = id; }
